@@ -11,7 +11,7 @@ PROPS = {
              assumptions=['configuration domain of DESIGN.md §5', 'bank/distribution modelled by hand (fee collector sweep)']),
  'C02': dict(level='proof', sections=['bank', 'vpn/deposit', 'vpn/subscription/10', 'vpn/subscription/20', 'vpn/subscription/30', 'event:PayFor', 'event:Refund', 'events'],
              result_ops=MONEY_OPS, monitors=['escrowSplit'], uses_generated=True),
- 'C03': dict(level='proof', sections=[], result_ops=['begin', 'end'], monitors=[]),
+ 'C03': dict(level='proof', sections=[], result_ops=['begin', 'end'], monitors=['lifecycle'], halts=True),
  'C04': dict(level='proof', sections=['vpn/node/10', 'vpn/node/11', 'vpn/subscription/10', 'vpn/subscription/11', 'vpn/subscription/30', 'vpn/subscription/31',
                                       'vpn/session/10', 'vpn/session/11', 'events'], result_ops=['begin', 'end', 'tx:subCancel', 'tx:sessEnd', 'tx:nodeStatus'],
              monitors=['deadlinesFuture', 'lifecycle']),
@@ -24,7 +24,8 @@ PROPS = {
  'C10': dict(level='proof', sections=None, result_ops=['*'], monitors=[], uses_generated=True, determinism=True,
              partial='runtime half (goroutine scheduling, map seeds) is differential only: re-executions compared byte for byte incl. app hash'),
  'C11': dict(level='proof', sections=['vpn/node/10', 'param'], result_ops=['tx:nodeRegister', 'tx:nodeUpdate', 'tx:nodeSubscribe', 'gov'], monitors=['prices']),
- 'C12': dict(level='proof', sections=None, result_ops=['export', 'reimport'], monitors=[]),
+ 'C12': dict(level='proof', sections=None, result_ops=['export', 'reimport'], monitors=[], roundtrip=True,
+             partial='subscriptions/allocations/payouts/counters are not exported (F5), the session counter is rebuilt from live ids (F9), small swaps invalidate the export (F4): known findings; roundtrip_partial covers the surviving tables'),
  'C13': dict(level='proof', sections=[], result_ops=['query'], monitors=[], uses_generated=True, probe=True),
  'C14': dict(level='proof', sections=['swap', 'bank', 'supply'], result_ops=['tx:swap'], monitors=['swapLedger'], uses_generated=True),
  'C15': dict(level='proof', sections=['custommint', 'sdkmint', 'events'], result_ops=['mintprobe', 'begin'], monitors=[]),
